@@ -10,6 +10,28 @@ SVC = "deep.config.tracepoint_config.TracepointConfigService"
 DEEP = "deep.api.deep"
 
 
+def _none_tolerated(ctx, fi, pname, depth=3, seen=None):
+    """Some function the parameter is handed to (by name) tests it against None before using it."""
+    seen = seen if seen is not None else set()
+    k = (ctx.types.fkey(fi), pname)
+    if k in seen or depth < 0:
+        return False
+    seen.add(k)
+    for n in ctx.types.nodes_in(fi, ast.Compare):
+        if isinstance(n.left, ast.Name) and n.left.id == pname and len(n.ops) == 1 and isinstance(n.ops[0], (ast.Is, ast.IsNot)) \
+                and isinstance(n.comparators[0], ast.Constant) and n.comparators[0].value is None:
+            return True
+    for c in ctx.types.calls_in(fi):
+        tg = ctx.types.resolve_call(c, fi)
+        if tg.by_name:
+            continue
+        for g_ in tg.repo:
+            for gp, arg in ctx.types.bind_args(g_, c).items():
+                if isinstance(arg, ast.Name) and arg.id == pname and _none_tolerated(ctx, g_, gp, depth - 1, seen):
+                    return True
+    return False
+
+
 def run(ctx: Ctx, tier: str) -> Result:
     res = Result("C13")
     res.explanation = (
@@ -197,6 +219,37 @@ def run(ctx: Ctx, tier: str) -> Result:
             res.ok("C13.API", {role: got})
         else:
             res.fail(Finding("C13.API", reg.qname, ac[0], reg.loc(ac[0]), "add_custom receives %s for `%s`, expected %s" % (got, role, want)))
+    # an argument that was given is never replaced: the empty default is taken only when the caller passed None
+    for pn in reg.params[1:]:
+        for kind, b in t.local_bindings(reg, pn):
+            if kind == "param":
+                continue
+            v = b[1] if kind == "assign" else None
+            st = paths.stmt_of(p, v) if v is not None else None
+            conds = [(norm(c), pol) for c, pol in paths.conditions(p, st, reg)] if st is not None else []
+            empty = isinstance(v, (ast.List, ast.Dict, ast.Tuple)) and not getattr(v, "elts", getattr(v, "keys", None))
+            if empty and conds in ([("%s is None" % pn, True)], [("%s is not None" % pn, False)]):
+                res.ok("C13.API", {"default for %s only when None" % pn: norm(st)})
+            else:
+                res.fail(Finding("C13.API", reg.qname, st if st is not None else pn, reg.loc(st) if st is not None else reg.loc(),
+                                 "the caller's `%s` is replaced %s: the tracepoint is registered without the %s that were given" % (
+                                     pn, "when `%s`" % " and ".join(("" if pol else "not ") + c for c, pol in conds) if conds else "unconditionally", pn)))
+    # ... and an argument that was left out (None) is replaced by an empty one before the tracepoint is built - here or in add_custom
+    a_ = reg.node.args
+    pos_ = a_.posonlyargs + a_.args
+    for arg_, dflt in zip(pos_[len(pos_) - len(a_.defaults):], a_.defaults):
+        if not (isinstance(dflt, ast.Constant) and dflt.value is None):
+            continue
+        pn = arg_.arg
+        role = [r_ for r_, v_ in ba.items() if isinstance(v_, ast.Name) and v_.id == pn]
+        here = any(k == "assign" for k, _ in t.local_bindings(reg, pn))
+        there = bool(role) and any(k == "assign" for k, _ in t.local_bindings(add, role[0]))
+        tolerant = bool(role) and _none_tolerated(ctx, add, role[0])
+        if here or there or tolerant:
+            res.ok("C13.API", {"omitted %s replaced by an empty default" % pn: "register_tracepoint" if here else "add_custom" if there else "tested for None downstream"})
+        else:
+            res.fail(Finding("C13.API", reg.qname, pn, reg.loc(), "an omitted `%s` reaches the tracepoint builders as None: a tracepoint registered with "
+                             "the defaults fails when it fires instead of becoming active" % pn))
     rr = [r for r in t.nodes_in(reg, ast.Return)]
     trc = p.cls(DEEP + ".TracepointRegistration")
     okr = False
@@ -220,6 +273,21 @@ def run(ctx: Ctx, tier: str) -> Result:
         if isinstance(a, ast.Attribute):
             st = t.field_stores(trc, a.attr)
             oku = bool(st) and all(sf is init and isinstance(v, ast.Name) and v.id == init.params[1] for sf, v, _ in st)
+    # ... to the service the tracepoint was registered with
+    if len(rc) == 1 and isinstance(rc[0].func, ast.Attribute) and isinstance(rc[0].func.value, ast.Attribute):
+        sfld = rc[0].func.value.attr
+        sst = t.field_stores(trc, sfld)
+        ok_store = bool(sst) and all(sf is init and isinstance(v, ast.Name) and len(init.params) > 2 and v.id == init.params[2] for sf, v, _ in sst)
+        ctor_arg = rr[0].value.args[1] if len(rr) == 1 and isinstance(rr[0].value, ast.Call) and len(rr[0].value.args) > 1 else None
+        same = ctor_arg is not None and isinstance(ac[0].func, ast.Attribute) and \
+            ctx.expand.expand(ctor_arg, reg) == ctx.expand.expand(ac[0].func.value, reg)
+        if ok_store and same:
+            res.ok("C13.API", {"unregister goes to the service that registered": norm(ctor_arg)})
+        else:
+            res.fail(Finding("C13.API", un.qname, rc[0], un.loc(rc[0]), "unregister does not reach the service the tracepoint was registered with "
+                             "(the registration does not keep it)"))
+    else:
+        oku = False
     if oku:
         res.ok("C13.API", {"unregister passes the stored handle": True})
     else:
